@@ -128,7 +128,7 @@ fn try_get_query_root(document: &ExecutableDocument) -> Result<&Positioned<Field
             if mult.values().len() > 1 {
                 Err(ParseError::MultipleOperationsInDocument(
                     mult.values()
-                        .nth(2)
+                        .nth(1)
                         .expect("Could not iterate to second value in document.")
                         .pos,
                 ))
